@@ -95,6 +95,10 @@ func Exp(ctx *expr.Context, input system.Collection, args ...expr.Expression) (s
 	}
 	// Exp number
 	res := math.Pow(math.E, number)
+	// A non-finite result is not representable as a Decimal.
+	if math.IsNaN(res) || math.IsInf(res, 0) {
+		return system.Collection{}, nil
+	}
 	result := system.MustParseDecimal(fmt.Sprintf("%v", res))
 	return system.Collection{result}, nil
 }
@@ -134,8 +138,8 @@ func Ln(ctx *expr.Context, input system.Collection, args ...expr.Expression) (sy
 		return nil, err
 	}
 	res := math.Log(number)
-	// Validating NaN case
-	if math.IsNaN(res) {
+	// Validating NaN and infinite cases
+	if math.IsNaN(res) || math.IsInf(res, 0) {
 		return system.Collection{}, nil
 	}
 	// Type conversion to system.Decimal
@@ -169,8 +173,8 @@ func Log(ctx *expr.Context, input system.Collection, args ...expr.Expression) (s
 	}
 	// Log number to base
 	res := logToBase(number, base)
-	// Validating NaN case
-	if math.IsNaN(res) {
+	// Validating NaN and infinite cases
+	if math.IsNaN(res) || math.IsInf(res, 0) {
 		return system.Collection{}, nil
 	}
 	// Type conversion to system.Decimal
@@ -223,8 +227,8 @@ func Power(ctx *expr.Context, input system.Collection, args ...expr.Expression) 
 	}
 	// Powering number
 	res := math.Pow(number, exp)
-	// Validating NaN case
-	if math.IsNaN(res) {
+	// Validating NaN and infinite cases
+	if math.IsNaN(res) || math.IsInf(res, 0) {
 		return system.Collection{}, nil
 	}
 	// Type conversion to system.Decimal
